@@ -23,6 +23,8 @@ struct SimStream
    // fault counters (what actually fired)
    uint64_t shortWrites = 0, shortReads = 0, wouldBlocks = 0, oneByte = 0;
    int64_t cutAfter = -1;     // if >= 0: after this many more bytes have been written the stream is closed (writer side cut)
+   const std::string * floodUnit = NULL;   // if set: the writer is a flooding peer -- whenever the reader comes back there is more of this (whole frames), without end
+   uint64_t flooded = 0;
 
    uint32_t NextW() {if (wsched.empty()) return 0xffffffffu; uint32_t v = wsched[wi % wsched.size()]; wi++; return v;}
    uint32_t NextR() {if (rsched.empty()) return 0xffffffffu; uint32_t v = rsched[ri % rsched.size()]; ri++; return v;}
@@ -45,6 +47,7 @@ struct SimStream
    // returns #bytes read, 0 = nothing available now, -1 = EOF
    int64_t Read(void * b, uint32_t n)
    {
+      if ((floodUnit)&&(!floodUnit->empty())&&(q.size() < 65536)) {while(q.size() < 131072) {q.insert(q.end(), floodUnit->begin(), floodUnit->end()); flooded += floodUnit->size(); totalWritten += floodUnit->size();}}
       if (q.empty()) return closed ? -1 : 0;
       uint32_t lim = NextR();
       uint32_t k = n; if (k > lim) k = lim; if ((size_t) k > q.size()) k = (uint32_t) q.size();
